@@ -38,9 +38,16 @@ def fbool(value):
 
 def fboolorfloat(value):
     """Bool or float"""
+    if isinstance(value, np.bool_):
+        # e.g. boolean attributes read from HDF5 files
+        value = bool(value)
+    elif isinstance(value, str) and value.strip().lower() not in ["true",
+                                                                  "false"]:
+        # numeric string (e.g. read from a configuration file)
+        value = float(value)
     if isinstance(value, (str, bool)) or value == 0:
         return fbool(value)
-    elif isinstance(value, (int, float)):
+    elif isinstance(value, (int, float, np.integer, np.floating)):
         return float(value)
     else:
         raise ValueError(f"Value could not be converted to bool "
